@@ -78,10 +78,22 @@ def run(ctx):
             a = [rng.choice([0, 0, (2 * rng.randrange(N) + 1) * 2**20 + rng.choice([-1, 0]), rng.randrange(-2**31, 2**31), 2**31 - 1, -2**31]) for _ in range(n)]
             cases.append(([vlib.w32(x) for x in a], rng.randrange(-2**31, 2**31), 2**29, 'edge mask'))
         a = [0] * n; a[rng.randrange(n)] = rng.randrange(-2**31, 2**31); cases.append((a, rng.randrange(-2**31, 2**31), 2**29, 'single'))
+        # d) exact rounding ties of mask coefficients on key bits that are set, the exponent aimed so that rounding one of them the other
+        #    way crosses a sign boundary (the library's modulus switch rounds ties up: p = N-1 or 2N-1 here; one tie down gives N or 0)
+        ones = [i for i, si in enumerate(s) if si]
+        for rep in range(6 if not thorough else 40):
+            if not ones: break
+            a = [rng.randrange(-2**31, 2**31) for _ in range(n)]
+            for i in rng.sample(ones, min(len(ones), rng.choice([1, 1, 2, 3]))):
+                a[i] = vlib.w32((2 * rng.randrange(N) + 1) * 2**20)          # exactly half-way between two multiples of 1/2N, odd and even lower neighbours alike
+            d = sum(rnd2N(ai)[0] for ai, si in zip(a, s) if si)
+            pt = rng.choice([N - 1, 2 * N - 1])
+            b = vlib.w32(((pt + d) % (2 * N)) * 2**21 + rng.randrange(-2**19, 2**19))
+            cases.append((a, b, 2**29, 'mask ties, aimed p=%d' % pt))
         # model predictions (cheap: no ring arithmetic)
         ml = ['bootp %d %d %s %s %d' % (N, n, fmt(s), fmt(a), b) for (a, b, mu, kind) in cases]
         mo = vlib.run_model(ml, 'fast', timeout=1800)
-        il = ['fullcase %s %d %d %s %d' % (spec, mu, (vmask if (i % 4 == 0 or kind.startswith('aimed')) else (vmask & 5) or 1), fmt(a), b) for i, (a, b, mu, kind) in enumerate(cases)]
+        il = ['fullcase %s %d %d %s %d' % (spec, mu, (vmask if (i % 4 == 0 or kind.startswith('aimed') or kind.startswith('mask ties')) else (vmask & 5) or 1), fmt(a), b) for i, (a, b, mu, kind) in enumerate(cases)]
         io = vlib.run_lines(exe, il, timeout=7200)
         for (a, b, mu, kind), line, o, m in zip(cases, il, io, mo):
             ctx.count((spec, tuple(a[:8]), b, mu)); nfull += 1
